@@ -136,7 +136,7 @@ def replay(interp, contract, shape, vals):
             spec_out, spec_state, _ = run_model(interp, contract, shape, vals, 'spec')
             info['spec_outcome'] = _jsonable(spec_out)
             ok = outcomes_agree(real_out, spec_out)
-            if ok and contract.observe_args and real_state != spec_state:
+            if ok and contract.observe_args and real_state != spec_state and not (contract.observe_args == 'on_return' and real_out[0] == 'exc'):
                 ok = False
                 info['real_state'] = _jsonable(real_state)
                 info['spec_state'] = _jsonable(spec_state)
